@@ -29,15 +29,16 @@ func init() { reg.Register(&reg.Prop{ID: "C12", Run: Run, Replay: Replay}) }
 
 // In is the replayable input of one execution. Which fields matter depends on Op.
 type In struct {
-	Op     string   `json:"op"`                    // writers | readers | writer1 | reader1 | hasher | unknown | verify
-	Stream string   `json:"stream_hex"`            // the byte stream, hex
-	Chunks []int    `json:"chunks,omitempty"`      // sizes of the successive Write calls / Read buffers (0 = empty write)
-	Algos  []string `json:"algos,omitempty"`       // algorithm names handed to the constructor, in this order
-	SumAt  int      `json:"sum_at"`                // Sum/Size also observed before chunk number SumAt (-1: only at the end)
-	Src    string   `json:"src,omitempty"`         // readers: delivery of the underlying reader: full | onebyte | dataeof | zero-once
-	Via    string   `json:"via,omitempty"`         // how the chunks are pushed into the writer / pulled out of the reader ("" = Write / Read)
-	PatLen int      `json:"pattern_len,omitempty"` // > 0: the stream is pattern(PatLen) and stream_hex is empty (long streams)
-	Ctor   string   `json:"ctor,omitempty"`        // unknown: constructor under test
+	Op     string   `json:"op"`                     // writers | readers | writer1 | reader1 | hasher | unknown | verify
+	Stream string   `json:"stream_hex"`             // the byte stream, hex
+	Chunks []int    `json:"chunks,omitempty"`       // sizes of the successive Write calls / Read buffers (0 = empty write)
+	Algos  []string `json:"algos,omitempty"`        // algorithm names handed to the constructor, in this order
+	SumAt  int      `json:"sum_at"`                 // Sum/Size also observed before chunk number SumAt (-1: only at the end)
+	Src    string   `json:"src,omitempty"`          // readers: delivery of the underlying reader: full | onebyte | dataeof | zero-once
+	Via    string   `json:"via,omitempty"`          // how the chunks are pushed into the writer / pulled out of the reader ("" = Write / Read)
+	PatLen int      `json:"pattern_len,omitempty"`  // > 0: the stream is pattern(PatLen) and stream_hex is empty (long streams)
+	XorLen int      `json:"xorshift_len,omitempty"` // > 0: the stream is nonPeriodic(XorLen) and stream_hex is empty (large streams)
+	Ctor   string   `json:"ctor,omitempty"`         // unknown: constructor under test
 	// verify
 	Carrier string   `json:"carrier,omitempty"`       // where the entry comes from
 	Fields  string   `json:"fields,omitempty"`        // which Checksums-* fields the paragraph has: 256 | 512 | both
@@ -164,6 +165,9 @@ func (s *srcReader) Read(p []byte) (int, error) {
 func checkHash(scen string, in In) *mc.Violation {
 	if in.PatLen > 0 {
 		return checkHashBytes(scen, in, pattern(in.PatLen))
+	}
+	if in.XorLen > 0 {
+		return checkHashBytes(scen, in, nonPeriodic(in.XorLen))
 	}
 	return checkHashBytes(scen, in, unhex(in.Stream))
 }
@@ -977,6 +981,8 @@ type work struct {
 	stream []byte
 	chunks [][]int
 	patLen int               // > 0: stream == pattern(patLen); inputs carry the length instead of the bytes
+	xorLen int               // > 0: stream == nonPeriodic(xorLen); inputs carry the length instead of the bytes
+	large  bool              // large stream: plain source only, observation at the end and mid-stream only
 	vias   map[bool][]string // non-nil: ways of writing (false) / reading (true) to use instead of all
 }
 
@@ -1000,7 +1006,7 @@ func hashScenario(r *mc.Run, name string, bounds map[string]interface{}, ws []wo
 	r.Scenario(name, bounds, len(ws), func(i int, st *mc.Stats) bool {
 		w := ws[i]
 		sh := ""
-		if w.patLen == 0 {
+		if w.patLen == 0 && w.xorLen == 0 {
 			sh = hex.EncodeToString(w.stream)
 		}
 		for ci, ch := range w.chunks {
@@ -1013,6 +1019,9 @@ func hashScenario(r *mc.Run, name string, bounds map[string]interface{}, ws []wo
 				vias := writerVias
 				if reader {
 					ss = append(append([]string(nil), srcs...), "zero-once")
+					if w.large {
+						ss = srcs
+					}
 					vias = readerVias
 				}
 				if w.vias != nil {
@@ -1031,6 +1040,9 @@ func hashScenario(r *mc.Run, name string, bounds map[string]interface{}, ws []wo
 								continue
 							}
 							ats := sumAts(ch)
+							if w.large {
+								ats = []int{-1, len(ch) / 2}
+							}
 							if vi != 0 {
 								ats = []int{-1}
 								if !reader && len(ch) > 0 {
@@ -1038,7 +1050,7 @@ func hashScenario(r *mc.Run, name string, bounds map[string]interface{}, ws []wo
 								}
 							}
 							for _, at := range ats {
-								in := In{Op: op, Stream: sh, PatLen: w.patLen, Chunks: ch, Algos: sel, SumAt: at, Src: src}
+								in := In{Op: op, Stream: sh, PatLen: w.patLen, XorLen: w.xorLen, Chunks: ch, Algos: sel, SumAt: at, Src: src}
 								if vi != 0 {
 									in.Via = via
 								}
@@ -1199,6 +1211,43 @@ func Run(r *mc.Run) {
 		hashScenario(r, "block-boundary-splits", map[string]interface{}{"lengths": lens, "content": "xorshift bytes (non-periodic)",
 			"cut_points": "1 7 15 63 64 65 127 128 129 and len minus each of them", "splits": "every 2- and 3-part split over the cut points", "stream_split_pairs": nsp,
 			"algorithm_selections": "each single name, all four in both orders"}, ws, []string{"writers", "readers", "writer1", "reader1", "hasher"}, six, srcs)
+	}
+
+	// large chunks: single Write calls / Read results beyond 64 KiB, 128 KiB and 1 MiB (no audit help needed)
+	{
+		const Ki, Mi = 1 << 10, 1 << 20
+		lens := []int{64*Ki - 1, 64 * Ki, 64*Ki + 1, 128*Ki - 1, 128 * Ki, 128*Ki + 1, 256*Ki + 1, Mi, Mi + 1}
+		if !r.Quick() {
+			lens = append(lens, 3*Mi)
+		}
+		vias := map[bool][]string{
+			false: {"write", "writestring", "copy-bytes-reader", "copy-plain-reader", "readfrom-if-any"},
+			true:  {"read", "readall", "copy-buffer", "copy-plain-writer", "readfull"}}
+		var ws []work
+		for _, n := range lens {
+			s := nonPeriodic(n)
+			cs := [][]int{{n}}
+			for _, c := range []int{64*Ki - 1, 64 * Ki, 64*Ki + 1, 128*Ki - 1, 128 * Ki, 128*Ki + 1, Mi - 1, Mi, Mi + 1} {
+				if c < n && (n < 3*Mi || c == 64*Ki+1 || c == 128*Ki+1 || c >= Mi-1) {
+					cs = append(cs, []int{c, n - c})
+				}
+			}
+			for _, b := range []int{64*Ki + 1, Mi, 2 * Mi} { // buffer sizes of successive reads (piece sizes of successive writes)
+				if b < n {
+					cs = append(cs, fixedChunks(n, b))
+				}
+			}
+			for _, c := range cs { // one shard per stream and chunking
+				ws = append(ws, work{stream: s, xorLen: n, chunks: [][]int{c}, vias: vias, large: true})
+			}
+		}
+		four := []string{"md5", "sha1", "sha256", "sha512"}
+		b := map[string]interface{}{"lengths": lens, "content": "xorshift bytes", "stream_chunking_pairs": len(ws),
+			"chunkings":   "everything in one piece; two pieces cut at 64Ki-1 64Ki 64Ki+1 128Ki-1 128Ki 128Ki+1 1Mi-1 1Mi 1Mi+1; pieces / read buffers of 64Ki+1, 1Mi, 2Mi; io.Copy's 32 KiB buffer (copy-plain-*)",
+			"observation": "at the end, and mid-stream"}
+		hashScenario(r, "large-chunks", b, ws, []string{"writers", "readers"}, [][]string{four, {"sha256"}, {"sha512"}}, []string{"full"})
+		hashScenario(r, "large-chunks-singular", map[string]interface{}{"lengths": lens, "stream_chunking_pairs": len(ws), "constructors": "NewHasherWriter, NewHasherReader, NewHasher"},
+			ws, []string{"writer1", "reader1", "hasher"}, [][]string{{"md5"}, {"sha512"}}, []string{"full"})
 	}
 
 	// alphabet audit: integers a change introduced (n-1, n, n+1 and, for n <= 24, 2^n-1, 2^n, 2^n+1) as stream
